@@ -1,7 +1,4 @@
 NA["C04"] = "quantifies over goroutine interleavings (WaitGroup, channels); the contract engine has no concurrency semantics"
 NA["C05"] = "relates Pause returning on one goroutine to a handler running on another; needs rely/guarantee reasoning over atomics/Cond, outside the contract subset"
-NA["C16"] = "end-to-end data correctness of arbitrary cache/memory stacks over request streams: an invariant across several components, ports and in-flight messages over many ticks, not a per-call statement"
-NA["C25"] = "composition of translator/TLBs/MMU-cache/MMU over histories with invalidations; system-level, no contract within reach expresses it"
-NA["C29"] = "whole-network liveness and exactly-once across switches, endpoints and connections; per-function mechanisms are covered in C10, C30, C31"
 NA["C32"] = "property of the event stream emitted by every tracing call site over whole runs with resets"
 NA["C33"] = "two-run hyperproperty (with vs without observers) over programs"
